@@ -78,7 +78,7 @@ func genC10(r *sim.Rand, tier string) *sim.Program {
 		case 8:
 			p.Add("encall", u, r.Intn(1<<30), r.PickInt(0, 1, 2, 3, 4, 0, 1, 2, 3, 4, 5, 6, 7, 8), r.Intn(2)).WithB(r.Bytes(r.PickInt(1, 16, 33, 65)))
 		case 9, 10:
-			p.Add("kx", u, (u+1)%nu, r.Intn(1<<30), r.PickInt(16, 16, 32, 48, 100, 100, 8200), r.Intn(2), r.Intn(7), r.Intn(3), r.Intn(1<<16), r.PickInt(0, 0, r.Intn(12)))
+			p.Add("kx", u, (u+1)%nu, r.Intn(1<<30), r.PickInt(16, 16, 32, 48, 100, 100, 8200), r.Intn(2), r.Intn(7), r.Intn(3), r.Intn(1<<16), r.PickInt(0, 0, r.Intn(12)), r.PickInt(0, 0, 0, 1))
 		case 11:
 			if r.Chance(1, 3) {
 				// constructive: search a scalar for which the 1-byte derived key is zero, so that WrapKey must draw again
@@ -641,6 +641,8 @@ func execC10(t *testing.T, p *sim.Program, c *sim.Ctx) {
 				rounds = 1
 			}
 			var A, B sm9.KeyExchange
+			var doneKey, liveKeyA, liveKeyB []byte // key of the last untouched, completed agreement (copy / the slices the library returned)
+			var key0 []byte                     // ... of round 0
 			exchange := func(round int, faultsOn bool) int {
 				corrupt := func(m []byte, target bool) []byte {
 					if !target || fault == 0 || len(m) == 0 || !faultsOn {
@@ -750,6 +752,8 @@ func execC10(t *testing.T, p *sim.Program, c *sim.Ctx) {
 				}
 				if !altered {
 					c.Hit("probe:key-exchange-completed")
+					doneKey = append([]byte{}, keyA...)
+					liveKeyA, liveKeyB = keyA, keyB
 					return 0
 				}
 				return 1
@@ -765,12 +769,45 @@ func execC10(t *testing.T, p *sim.Program, c *sim.Ctx) {
 				} else {
 					c.Hit("probe:key-exchange-object-reused")
 				}
+				doneKey = nil
 				st := exchange(round, round == rounds-1)
 				if st == 2 {
 					return
 				}
+				if round == 0 && st == 0 {
+					key0 = doneKey
+				}
 				if st == 1 {
 					break
+				}
+			}
+			if op.Int(9)&1 == 1 && A != nil && B != nil {
+				// both applications wipe their protocol objects. What the callers hold (returned keys, identifiers, user keys, the
+				// master public key with its lazily built tables) must survive: the agreement of round 0 repeated on fresh
+				// objects with the same scripted scalars gives the same key.
+				ua, ub := append([]byte{}, a.uid...), append([]byte{}, b.uid...)
+				A.Destroy()
+				B.Destroy()
+				c.Hit("probe:destroy-after-key-exchange")
+				if doneKey != nil && (!bytes.Equal(liveKeyA, doneKey) || !bytes.Equal(liveKeyB, doneKey)) {
+					c.Fail("destroy-damaged-caller-data", i, op.K, "Destroy wiped the key that had been returned to the caller")
+					return
+				}
+				if !bytes.Equal(ua, a.uid) || !bytes.Equal(ub, b.uid) {
+					c.Fail("destroy-damaged-caller-data", i, op.K, "Destroy changed the caller's identifier")
+					return
+				}
+				if key0 != nil {
+					A = ka.NewKeyExchange(a.uid, b.uid, klen, conf)
+					B = kb.NewKeyExchange(b.uid, a.uid, klen, conf)
+					doneKey = nil
+					if st := exchange(0, false); st == 2 {
+						return
+					}
+					if !bytes.Equal(doneKey, key0) {
+						c.Fail("destroy-damaged-caller-data", i, op.K, "after Destroy of earlier protocol objects the same agreement (same keys, identifiers and scripted scalars) on FRESH objects gives another key or fails")
+						return
+					}
 				}
 			}
 		case "keyser":
